@@ -1,4 +1,5 @@
 import Anndb.Model.RaftLoop
+import Anndb.Proofs.Quorum
 import Anndb.Generated
 /-!
 # C05 — the raft glue keeps its side of the contract
@@ -14,7 +15,11 @@ hand over (`ReadyOK`), is the host's side:
 * `applied_in_order`              the apply cursor hands over every committed index once, in order;
 * `restart_resumes_from_store`    a replica with a non-empty log store resumes from it (term, vote,
   next index), whatever peers it is given; `bootstrap_over_store_forks` shows the alternative forks;
-* `start_in_code`                 the decision is the one in `startRaftNode` on this run.
+* `start_in_code`                 the decision is the one in `startRaftNode` on this run;
+* `at_most_one_leader_per_term`   what those two obligations buy for the election: a replica whose vote
+  is stored before the grant leaves and that resumes from its store grants one candidate per term
+  through any crashes, so two candidates cannot both hold a majority (`quorum_intersection`);
+  `grant_before_save_elects_two` is the explicit history for the other order.
 
 `ReadyOK` is etcd/raft's documented contract ("messages are sent after HardState and Entries are
 written to stable storage") plus the one relaxation the code uses: a replica that is leader after
@@ -144,6 +149,29 @@ theorem bootstrap_iff (peers : List Nat) (e : Bool) :
 at term 3 starts appending at index 1 in term 0 — it forks its own history -/
 theorem bootstrap_over_store_forks :
     resume (startMode false [1, 2, 3] false) ⟨3, 2, 7⟩ = ⟨0, 0, 1⟩ := by decide
+
+/-! ## election safety from the two host obligations -/
+
+open Anndb.Quorum in
+/-- **C05 (one leader per term).** Replicas `0 … n-1`; replica `r` sees, in one term, the vote
+requests and crash/restarts `evs r`, stores its vote before the grant leaves (`run_attests`) and
+resumes from the store (`restart_resumes_from_store`). Two candidates that both hold the grants of
+a majority are one candidate. -/
+theorem at_most_one_leader_per_term (n : Nat) (evs : Nat → List VEv) (c₁ c₂ : Nat) (Q₁ Q₂ : List Nat)
+    (h₁ : Majority n Q₁) (h₂ : Majority n Q₂)
+    (g₁ : ∀ r ∈ Q₁, c₁ ∈ (Voter.init.run true (evs r)).sent)
+    (g₂ : ∀ r ∈ Q₂, c₂ ∈ (Voter.init.run true (evs r)).sent) : c₁ = c₂ :=
+  election_safety n evs c₁ c₂ Q₁ Q₂ h₁ h₂ g₁ g₂
+
+open Anndb.Quorum in
+/-- the other order (grant leaves, crash, restart without the vote): three replicas, two majorities,
+two leaders in one term -/
+theorem grant_before_save_elects_two :
+    let evs : Nat → List VEv := fun r =>
+      if r = 0 then [.request 1] else if r = 1 then [.request 1, .restart, .request 2] else [.request 2]
+    Majority 3 [0, 1] ∧ Majority 3 [1, 2] ∧
+    (∀ r ∈ [0, 1], 1 ∈ (Voter.init.run false (evs r)).sent) ∧
+    (∀ r ∈ [1, 2], 2 ∈ (Voter.init.run false (evs r)).sent) := send_before_save_elects_two
 
 /-! ## non-vacuity -/
 
